@@ -137,7 +137,7 @@ theorem blocksLoop_eq (j : Nat) (s : Cipher) (hp : PrecompOK s) (src : Bytes) (h
       congr 1
       simp [adv, UInt32.add_assoc, UInt32.add_comm]
 
-/-! ## abstraction and invariant (bufSize = 64) -/
+/-! ## abstraction and invariant (bufSize = 64·m) -/
 
 /-- the block counter as a natural number: after the last block the 32-bit field has wrapped to 0 and
     `overflow` records it -/
@@ -146,13 +146,17 @@ def tc (s : Cipher) : Nat := if s.overflow then 2 ^ 32 else s.counter.toNat
 /-- abstract state: the byte position in the keystream of the next byte to be used -/
 def pos (s : Cipher) : Nat := 64 * tc s - s.len
 
-structure Inv (s : Cipher) : Prop where
-  buflen : s.buf.length = 64
-  lenlt : s.len < 64
+structure Inv (m : Nat) (s : Cipher) : Prop where
+  mpos : 0 < m
+  buflen : s.buf.length = 64 * m
+  lenlt : s.len < 64 * m
   lenle : s.len ≤ 64 * tc s
   ovf : s.overflow = true → s.counter = 0
-  bufks : s.buf.drop (64 - s.len) = ksRange s.key s.nonce (pos s) s.len
+  bufks : s.buf.drop (64 * m - s.len) = ksRange s.key s.nonce (pos s) s.len
   pre : s.precompDone = true → PrecompOK s
+  /-- once the last block has been generated, less than one block is buffered (the last refill was done
+      one block at a time) -/
+  ovflen : s.overflow = true → s.len < 64
 
 /-- `s'` is `s` with the counter set to `c` (and possibly the cache filled) -/
 structure Same (s s' : Cipher) (c : UInt32) : Prop where
